@@ -285,7 +285,9 @@ def impl(fn, *a, **k):
             old = signal.signal(signal.SIGALRM, on_alarm)
             # a check started from a thread of another Python program can inherit a signal mask in which SIGALRM is blocked
             signal.pthread_sigmask(signal.SIG_UNBLOCK, {signal.SIGALRM})
-            signal.setitimer(signal.ITIMER_REAL, limit)
+            # periodic: library code between the call and us may swallow the exception (a broad `except` around an attribute
+            # lookup, say) - it is raised again every second until it gets through
+            signal.setitimer(signal.ITIMER_REAL, limit, 1.0)
         with warnings.catch_warnings():
             warnings.simplefilter("ignore")
             with np.errstate(all="ignore"):
